@@ -6,3 +6,4 @@ class AdmittanceSquaredMixin(object):
     is_admittancesquared = True
     is_squared = True
     is_ratio = True
+    is_undefined = False
